@@ -61,7 +61,10 @@ const (
 )
 
 func c11Version(key string, vary int) *proxyv1alpha1.UpstreamCluster {
-	c := &proxyv1alpha1.UpstreamCluster{ObjectMeta: metav1.ObjectMeta{Name: "tenant"}}
+	// metadata the gateway must not base its decision to apply on: an object re-created under the same name starts
+	// again at generation 1, a re-list after a watch gap may deliver any resourceVersion / UID
+	c := &proxyv1alpha1.UpstreamCluster{ObjectMeta: metav1.ObjectMeta{Name: "tenant",
+		Generation: int64(nondetInt32In(key+".generation", 0, 3)), ResourceVersion: nondetStringN(key+".resourceVersion", 1)}}
 	annotations, fc := 0, 0
 	if vary&c11VaryGates != 0 {
 		annotations = nondetRange(key+".annotations", 0, 3)
